@@ -174,7 +174,7 @@ func Project(m protoreflect.Message) map[string]any {
 	return map[string]any{"f": fs, "u": core.B(normUnknown(u))}
 }
 
-// normUnknown re-encodes the tags of raw unknown fields minimally.  The fast path stores unknown fields
+// normUnknown re-encodes the tags (and the length prefixes of length-delimited values) of raw unknown fields minimally.  The fast path stores unknown fields
 // with a canonical tag, the reflection path keeps the input bytes: the properties allow exactly this
 // difference ("up to unknown-field tag normalization").
 func normUnknown(u []byte) []byte {
@@ -190,7 +190,14 @@ func normUnknown(u []byte) []byte {
 			return u
 		}
 		out = protowire.AppendTag(out, num, typ)
-		out = append(out, b[n:n+m]...)
+		if typ == protowire.BytesType {
+			// ... and the length prefix of a length-delimited value in its shortest form (PbCodec!NormVal): the
+			// table-driven MessageSet decoder keeps a non-minimal prefix, the reflection-based one re-encodes it
+			v, _ := protowire.ConsumeBytes(b[n : n+m])
+			out = protowire.AppendBytes(out, v)
+		} else {
+			out = append(out, b[n:n+m]...)
+		}
 		b = b[n+m:]
 	}
 	return out
